@@ -52,7 +52,7 @@ from easynetwork.serializers.tools import GeneratorStreamReader
 ID = "C05"
 CLAIMED = True
 TITLE = "Datagrams: one packet per datagram, boundaries preserved, errors isolated"
-REQUIRED_THEOREMS = ["C05_pointwise", "C05_oneshot_of_incremental", "C05_default_oneshot_roundtrip", "C05_queue_fifo"]
+REQUIRED_THEOREMS = ["C05_pointwise", "C05_replace_isolated", "C05_oneshot_of_incremental", "C05_default_oneshot_roundtrip", "C05_queue_fifo"]
 LEVEL_TEXT = (
     "Machine-checked proof (Lean 4): datagram receive is a pointwise map (no state), the one-shot interface derived from the "
     "incremental one accepts exactly one complete frame with nothing after it, round-trips valid payloads, and the asyncio "
